@@ -82,6 +82,8 @@ func canonShapeOnce(s string) string {
 						a, bb := canonShapeOnce(s[cl+2:c1]), canonShapeOnce(s[c1+2:c2])
 						if strings.HasPrefix(cnd, "not(") && matchingClose(cnd, 3) == len(cnd)-1 {
 							cnd, a, bb = cnd[4:len(cnd)-1], bb, a
+						} else if pos, ok := positiveOf(cnd); ok {
+							cnd, a, bb = pos, bb, a
 						}
 						b.WriteString("?(" + cnd + "){" + a + "}{" + bb + "}")
 						i = c2 + 1
@@ -239,6 +241,28 @@ func splitTop(s string, sep byte) []string {
 //   (slice.Len(X) eq 0) = slice.IsEmpty(X); (slice.Len(X) ne 0) = (slice.Len(X) > 0) = not(slice.IsEmpty(X));
 //   (A eq B) = (B eq A), (A ne B) = (B ne A): the operands are put in lexicographic order.
 func rebuildInfix(inner string) string {
+	// a conjunction / disjunction of call-free comparisons: the operands in lexicographic order (no operand can
+	// fail or have an effect, so their order is immaterial)
+	for _, op := range []string{" && ", " || "} {
+		if ps := splitTopStr(inner, op); len(ps) >= 2 {
+			atoms := true
+			for k := range ps {
+				ps[k] = strings.TrimSpace(ps[k])
+				body := ps[k]
+				if strings.HasPrefix(body, "(") && matchingClose(body, 0) == len(body)-1 {
+					body = body[1 : len(body)-1]
+				}
+				if strings.ContainsAny(body, "()[]{}") || !(strings.Contains(body, " eq ") || strings.Contains(body, " ne ")) {
+					atoms = false
+				}
+			}
+			if atoms {
+				sort.Strings(ps)
+				return "(" + strings.Join(ps, op) + ")"
+			}
+			break
+		}
+	}
 	for _, op := range []string{" eq ", " ne ", " > "} {
 		ps := splitTopStr(inner, op)
 		if len(ps) != 2 {
@@ -316,6 +340,8 @@ func rebuild(kw, inner string) string {
 			a, bb := strings.TrimSpace(parts[1]), strings.TrimSpace(parts[2])
 			if strings.HasPrefix(cnd, "not(") && matchingClose(cnd, 3) == len(cnd)-1 {
 				cnd, a, bb = cnd[4:len(cnd)-1], bb, a
+			} else if pos, ok := positiveOf(cnd); ok {
+				cnd, a, bb = pos, bb, a
 			}
 			// a conditional between boolean constants is a boolean expression (same short-circuit evaluation)
 			switch {
@@ -337,6 +363,18 @@ func rebuild(kw, inner string) string {
 		return kw + inner + ")"
 	case "not(":
 		x := strings.TrimSpace(inner)
+		// De Morgan: the negation goes inward (not((A || B)) is (not(A) && not(B)), and dually)
+		if strings.HasPrefix(x, "(") && matchingClose(x, 0) == len(x)-1 {
+			in := x[1 : len(x)-1]
+			for _, pr := range [][2]string{{" || ", " && "}, {" && ", " || "}} {
+				if ps := splitTopStr(in, pr[0]); len(ps) >= 2 {
+					for k := range ps {
+						ps[k] = rebuild("not(", strings.TrimSpace(ps[k]))
+					}
+					return rebuildInfix(strings.Join(ps, pr[1]))
+				}
+			}
+		}
 		if strings.HasPrefix(x, "not(") && matchingClose(x, 3) == len(x)-1 {
 			return x[4 : len(x)-1]
 		}
@@ -377,4 +415,15 @@ func splitTopStr(s, sep string) []string {
 		j++
 	}
 	return append(parts, s[start:])
+}
+
+// positiveOf: for a condition (A ne B) the equality (A eq B) it negates.
+func positiveOf(cnd string) (string, bool) {
+	if strings.HasPrefix(cnd, "(") && matchingClose(cnd, 0) == len(cnd)-1 {
+		in := cnd[1 : len(cnd)-1]
+		if ps := splitTopStr(in, " ne "); len(ps) == 2 {
+			return "(" + ps[0] + " eq " + ps[1] + ")", true
+		}
+	}
+	return "", false
 }
